@@ -1,7 +1,7 @@
 SPECIFICATION MCSpec
 CONSTANTS
   MaxFrame = 3
-  ConsumeOversized = FALSE
+  DiscardOversized = TRUE
   MaxLen = 0
   Streams <- FileStreams
 INVARIANTS TypeOK InvConforms InvPrefix Emit
